@@ -47,13 +47,14 @@ NEEDS_EXT = True     # pytype.tools.environment -> typeshed -> pyi parser -> cfg
 
 # --------------------------------------------------------------------------- bounds
 
-KINDS = "LPSBX"
+KINDS = "LPSBXE"
 KIND_DOC = {
     "L": "plain local module m.py",
     "P": "package: m/__init__.py",
     "S": "m.py that also imports the System module os",
     "B": "m.py that also imports the Builtin module sys",
     "X": "m.py that also imports a module that does not exist",
+    "E": "m.py that also imports pytype_extensions (a System module that, unlike others, gets its own infer step)",
 }
 # (project root directory name, output directory name) per scheme
 DIRS = {
@@ -200,6 +201,18 @@ def n_requests(n, mode):
 # --------------------------------------------------------------------------- project writer + oracle facts
 
 
+_EXT_DIR = []
+
+
+def _is_ext_file(path):
+  """Whether path lies in the installed/checked-out pytype_extensions package (found independently)."""
+  if not _EXT_DIR:
+    import importlib.util
+    spec = importlib.util.find_spec("pytype_extensions")
+    _EXT_DIR.append(os.path.dirname(os.path.realpath(spec.origin)) if spec and spec.origin else "")
+  return bool(_EXT_DIR[0]) and os.path.realpath(path).startswith(_EXT_DIR[0] + os.sep)
+
+
 class Project:
   """Files on disk for one spec, plus what the harness knows independently of pytype."""
 
@@ -232,6 +245,8 @@ class Project:
         lines.append("import sys")
       elif kinds[m] == "X":
         lines.append("import " + MISSING)
+      elif kinds[m] == "E":
+        lines.append("import pytype_extensions")
       lines.append("x%d = %d" % (m, m))
       with open(path, "w") as f:
         f.write("\n".join(lines) + "\n")
@@ -758,7 +773,12 @@ def check_plan(w, proj, request, outdir, stats):
         bad.append("output %r is not under the configured output directory %r" % (o, outdir))
     for i in st.ins:
       if i not in src_index:
-        bad.append("step %d analyses %r which is not a project file (path mangled?)" % (k, i))
+        # pytype's own pytype_extensions library is the one non-project module that gets a step
+        if _is_ext_file(i) and "E" in [proj.kinds[m] for m in reach]:
+          if st.rule != "infer":
+            bad.append("step %d reports errors for %r, a library file nobody requested" % (k, i))
+        else:
+          bad.append("step %d analyses %r which is not a project file (path mangled?)" % (k, i))
       elif src_index[i] not in reach:
         bad.append("step %d analyses %r which the requested files do not reach" % (k, i))
     for d in st.implicit + st.order:
@@ -772,10 +792,11 @@ def check_plan(w, proj, request, outdir, stats):
   if bad:
     return bad, plan
 
-  mod_of = [src_index[st.ins[0]] for st in steps]
+  mod_of = [src_index.get(st.ins[0]) for st in steps]   # None: a step for the pytype_extensions library
   steps_of = collections.defaultdict(list)
   for k, m in enumerate(mod_of):
-    steps_of[m].append(k)
+    if m is not None:
+      steps_of[m].append(k)
 
   # ---- each requested file is analysed for errors exactly once; nothing else is
   for m in range(proj.n):
@@ -827,6 +848,8 @@ def check_plan(w, proj, request, outdir, stats):
   # ---- every direct import of the analysed module is fed by a stub made from that import
   for k, st in enumerate(steps):
     m = mod_of[k]
+    if m is None:
+      continue
     # A step must see the stubs of the whole cycle it is part of if it reports errors or if its
     # output is what modules outside the cycle read; any other step of a cycle member may be a
     # first pass, for which only imports from outside the cycle have to be available.
